@@ -5,9 +5,9 @@ python3-vt - <<'PY' || exit 1
 import json, jsonschema, importlib, sys
 sys.path.insert(0, '/verif')
 jsonschema.validate(json.load(open('/verif/MANIFEST.json')), json.load(open('/root/.vp/MANIFEST.schema.json')))
-for i in range(1, 14):
+for i in range(1, 15):
     importlib.import_module(f'mirsym.props.c{i:02d}')
-for m in ('parse_level','run_level','process_level','abstract_process','response_level','arg_level','header_level','queue_level'):
+for m in ('parse_level','run_level','process_level','abstract_process','response_level','arg_level','header_level','queue_level', 'macro_level'):
     importlib.import_module('mirsym.checks.' + m)
 print('precommit ok')
 PY
